@@ -16,7 +16,10 @@ namespace sdkm = opentelemetry::sdk::metrics;
 using namespace std::chrono;
 
 namespace {
-struct Cfg { int readers[2]; int nreaders; int R, n; int collectors; int same_attrs; };  // reader temporality: 0 delta, 1 cumulative
+// reader temporality: 0 delta, 1 cumulative.  same_attrs: 0 = recorder r uses {a = r&1}, 1 = all use {a=0}, 2 = all use the attribute-less Add(value).
+// dbl: the instrument is a double counter.  The four SyncMetricStorage::Record* bodies (long / double, with / without attributes) each take the
+// storage lock on their own, so each of them is raced against a collection by at least one configuration.
+struct Cfg { int readers[2]; int nreaders; int R, n; int collectors; int same_attrs; int dbl; };
 std::vector<Cfg> g_cfgs;
 
 class PullReader final : public sdkm::MetricReader {
@@ -46,6 +49,11 @@ void collect(sdkm::MetricReader &r, int ri) {
           if (nostd::holds_alternative<sdkm::SumPointData>(pda.point_data)) {
             auto &sp = nostd::get<sdkm::SumPointData>(pda.point_data);
             if (nostd::holds_alternative<int64_t>(sp.value_)) vals[idx & 1] += nostd::get<int64_t>(sp.value_);
+            else if (nostd::holds_alternative<double>(sp.value_)) {
+              // powers of two below 2^53 and their sums are exact doubles; anything else is shown as a foreign bit (bit 62)
+              double d = nostd::get<double>(sp.value_);
+              vals[idx & 1] += (d >= 0 && d < 1e15 && (double)(int64_t)d == d) ? (int64_t)d : (int64_t(1) << 62);
+            }
           }
         }
     return true;
@@ -63,13 +71,22 @@ void setup(vf::Options &o) {
   o.cap[vf::PREEMPT] = atoi(o.get("k", th ? "3" : "2").c_str());
   o.table_bits = th ? 25 : 23;
   o.deadline_s = atof(o.get("budget", th ? "900" : "90").c_str());
-  g_cfgs.push_back({{0, 0}, 1, 2, 1, 1, 1});   // one delta reader (single-reader fast path), 2 recorders x 1 Add, same attribute set
-  g_cfgs.push_back({{1, 0}, 1, 2, 1, 1, 1});   // one cumulative reader
-  g_cfgs.push_back({{0, 1}, 2, 1, 2, 1, 1});   // delta + cumulative reader, one collector thread (reader 0), recorder does 2 Adds
-  g_cfgs.push_back({{0, 0}, 2, 2, 1, 2, 0});   // two delta readers collected from two threads, different attribute sets
+  g_cfgs.push_back({{0, 0}, 1, 2, 1, 1, 1, 0});   // one delta reader (single-reader fast path), 2 recorders x 1 Add, same attribute set
+  g_cfgs.push_back({{1, 0}, 1, 2, 1, 1, 1, 0});   // one cumulative reader
+  g_cfgs.push_back({{0, 1}, 2, 1, 2, 1, 1, 0});   // delta + cumulative reader, one collector thread (reader 0), recorder does 2 Adds
+  g_cfgs.push_back({{0, 0}, 2, 2, 1, 2, 0, 0});   // two delta readers collected from two threads, different attribute sets
+  // the other three Record* bodies: attribute-less uint64 Add; double counter with and without attributes
+  g_cfgs.push_back({{0, 0}, 1, 2, 1, 1, 2, 0});   // RecordLong(value, ctx): one delta reader, 2 recorders x 1 attribute-less Add
+  g_cfgs.push_back({{0, 0}, 1, 2, 1, 1, 1, 1});   // RecordDouble(value, attrs, ctx): one delta reader, double counter, same attribute set
+  g_cfgs.push_back({{1, 0}, 1, 2, 1, 1, 2, 1});   // RecordDouble(value, ctx): one cumulative reader, double counter, attribute-less
   if (th) {
-    g_cfgs.push_back({{0, 1}, 2, 2, 2, 2, 1});
-    g_cfgs.push_back({{1, 1}, 2, 2, 1, 2, 0});
+    g_cfgs.push_back({{0, 1}, 2, 2, 2, 2, 1, 0});
+    g_cfgs.push_back({{1, 1}, 2, 2, 1, 2, 0, 0});
+    g_cfgs.push_back({{1, 0}, 1, 2, 1, 1, 2, 0});   // the new bodies with the other temporality / two readers
+    g_cfgs.push_back({{1, 0}, 1, 2, 1, 1, 1, 1});
+    g_cfgs.push_back({{0, 0}, 1, 2, 1, 1, 2, 1});
+    g_cfgs.push_back({{0, 1}, 2, 1, 2, 1, 2, 1});
+    g_cfgs.push_back({{0, 0}, 2, 2, 1, 2, 2, 0});
   }
   std::string only = o.get("cfg");
   if (!only.empty()) { Cfg c = g_cfgs[atoi(only.c_str())]; g_cfgs.assign(1, c); }
@@ -91,20 +108,29 @@ void run(vf::Ctx &c) {
       provider.AddMetricReader(readers[r]);
     }
     auto meter = provider.GetMeter("m", "1");
-    auto counter = meter->CreateUInt64Counter("c");
+    nostd::unique_ptr<opentelemetry::metrics::Counter<uint64_t>> counter;
+    nostd::unique_ptr<opentelemetry::metrics::Counter<double>> dcounter;
+    if (cfg.dbl) dcounter = meter->CreateDoubleCounter("c");
+    else counter = meter->CreateUInt64Counter("c");
     std::vector<std::thread> ts;
     int bit = 0;
     for (int r = 0; r < cfg.R; ++r) {
       std::vector<std::pair<int64_t, int>> adds;
       for (int i = 0; i < cfg.n; ++i) {
-        int attr = cfg.same_attrs ? 0 : r & 1;
+        int attr = cfg.same_attrs ? 0 : r & 1;  // (attribute-less measurements are read back as attribute set 0)
         adds.emplace_back(int64_t(1) << bit, attr);
         total[attr] += int64_t(1) << bit;
         bit++;
       }
       ts.emplace_back([&, adds] {
         for (auto &a : adds) {
-          counter->Add((uint64_t)a.first, {{"a", (int32_t)a.second}});
+          if (cfg.dbl) {
+            if (cfg.same_attrs == 2) dcounter->Add((double)a.first);
+            else dcounter->Add((double)a.first, {{"a", (int32_t)a.second}});
+          } else {
+            if (cfg.same_attrs == 2) counter->Add((uint64_t)a.first);
+            else counter->Add((uint64_t)a.first, {{"a", (int32_t)a.second}});
+          }
           vfs::note("added", (uint64_t)a.first);
         }
       });
@@ -140,7 +166,8 @@ void run(vf::Ctx &c) {
     outcome += "|";
   }
   c.outcome(vf::sfmt("%d:", (int)(&cfg - &g_cfgs[0])) + outcome);
-  c.sample(vf::sfmt("readers=%d recorders=%dx%d collectors=%d: per-reader collections %s", cfg.nreaders, cfg.R, cfg.n, cfg.collectors, outcome.c_str()));
+  c.sample(vf::sfmt("%s counter, %s; readers=%d recorders=%dx%d collectors=%d: per-reader collections %s", cfg.dbl ? "double" : "uint64",
+                    cfg.same_attrs == 2 ? "attribute-less Add" : "Add with attributes", cfg.nreaders, cfg.R, cfg.n, cfg.collectors, outcome.c_str()));
 }
 }  // namespace
 
